@@ -72,7 +72,21 @@ def base_functions(repo: Repo) -> Dict[str, ast.expr]:
     if not isinstance(val, ast.Dict):
         raise AnalysisError("evaluation.base_functions is not a dict literal")
     out: Dict[str, ast.expr] = {}
-    for k, v in zip(val.keys, val.values):
+
+    def entries(d: ast.Dict, depth: int = 0):
+        # `**other_table` splices a dict literal bound to a module-level name (later keys win, as in Python)
+        for k, v in zip(d.keys, d.values):
+            if k is None:
+                from .model import deref
+
+                sub = deref(mod, v)
+                if isinstance(sub, ast.Dict) and depth < 4:
+                    yield from entries(sub, depth + 1)
+                    continue
+                raise AnalysisError(f"base_functions splices `**{ast.unparse(v)[:40]}`, which is not a dict literal bound to a name")
+            yield k, v
+
+    for k, v in entries(val):
         if not (isinstance(k, ast.Constant) and isinstance(k.value, str)):
             raise AnalysisError("base_functions has a non-literal key")
         out[k.value] = v
